@@ -109,7 +109,7 @@ def make_recipes(tier: str, seed: int, infos: dict):
         toks = sorted(T)
         pairs = list(itertools.combinations(toks, 2))
         rng.shuffle(pairs)
-        npairs = {"quick": 70, "thorough": 240}[tier]
+        npairs = {"quick": 32, "thorough": 240}[tier]
         for a, b in pairs[:npairs]:
             add(f"{a},{b}", [T[a], T[b]])
             add(f"{b},{a}", [T[b], T[a]])
@@ -369,10 +369,14 @@ def both_diffs(da, db, x, back):
     return ds + [a for a in attr_diffs(x, back) if a["field"] not in fields]
 
 
+class _Skip(Exception):
+    pass
+
+
 _RT_DONE: dict = {}
 
 
-def _trip(x, what: str, events: list, model_level=False):
+def _trip(x, what: str, events: list, model_level=False, skip_plain_dict=False):
     if id(x) in _RT_DONE:
         return
     _RT_DONE[id(x)] = x
@@ -399,14 +403,19 @@ def _trip(x, what: str, events: list, model_level=False):
     except Exception as e:
         ev("dict", 0, stage="to_dict", exception=type(e).__name__, message=str(e)[:100])
         return
-    # to_dict -> from_dict
+    # to_dict -> from_dict (quick tier: for whole models / statement lists the trip through JSON text below subsumes it,
+    # and every component is tripped on its own)
     try:
+        if skip_plain_dict:
+            raise _Skip()
         back = T.from_dict(d)
         c, err = same(back)
         info = {}
         if c != 1:
             info = {"stage": "compare", "exception": err, "diffs": both_diffs(_norm(d), _norm(back.to_dict()), x, back) if c == 2 else []}
         ev("dict", c, **info)
+    except _Skip:
+        pass
     except Exception as e:
         ev("dict", 0, stage="from_dict", exception=type(e).__name__, message=str(e)[:100])
     # through JSON text
@@ -438,14 +447,14 @@ def round_trips(m) -> list:
     from pharmpy.model.external.generic import parse_model
 
     events: list = []
-    _trip(m, "Model", events)
+    _trip(m, "Model", events, skip_plain_dict=_TIER == "quick")
     _trip(m.parameters, "Parameters", events)
     for p in list(m.parameters)[:3]:
         _trip(p, "Parameter", events)
     _trip(m.random_variables, "RandomVariables", events)
     for d in m.random_variables:
         _trip(d, type(d).__name__, events)
-    _trip(m.statements, "Statements", events)
+    _trip(m.statements, "Statements", events, skip_plain_dict=_TIER == "quick")
     for s in m.statements:
         tn = type(s).__name__
         _trip(s, tn, events)
@@ -680,6 +689,8 @@ def _explore(tier: str, box: dict):
     try:
         d = core.scratch("c12cfg")
         txt = (SPEC / "Keys.cfg").read_text()
+        if tier == "quick":
+            txt = txt.replace('Vias = {"dict", "json", "code", "results"}', 'Vias = {"dict", "code"}')
         if tier == "thorough":
             txt = txt.replace("MaxObs = 2", "MaxObs = 2").replace("Hists = {h1, h2}", "Hists = {h1, h2, h3}").replace("Labels = {n1, n2}", "Labels = {n1, n2, n3}")
         cfg = d / "Keys.cfg"
@@ -743,8 +754,11 @@ def replicate_keys(base, n: int, keep_alive: bool):
 def _children(pickles, hists, rebuild, d: Path):
     """One fresh interpreter per hash seed; returns {proc: result dict}."""
     inp = d / "in.pickle"
-    inp.write_bytes(pickle.dumps({"models": pickles, "hists": hists, "recipes": rebuild, "replicates": N_REPLICATES[_TIER],
-                                  "replicate_base": hists.index(BASES[_TIER][0] + ":")}))
+    common = {"models": pickles, "hists": hists, "recipes": rebuild, "replicates": N_REPLICATES[_TIER],
+              "replicate_base": hists.index(BASES[_TIER][0] + ":")}
+    inp.write_bytes(pickle.dumps(common))
+    inp0 = d / "in0.pickle"  # same hash seed as the parent: the pickle trip would show nothing
+    inp0.write_bytes(pickle.dumps(dict(common, no_pickle_trips=True)))
     # a fourth interpreter with another site configuration (pharmpy.conf): same pickles, keys only
     cdir = d / "conf"
     cdir.mkdir()
@@ -761,7 +775,7 @@ def _children(pickles, hists, rebuild, d: Path):
             env["PHARMPYCONFIGPATH"] = str(cdir)
             env.pop("PHARMPYNOCONFIGFILE", None)
         out = d / f"out_{seed}.pickle"
-        p = subprocess.Popen([sys.executable, "-m", "harness.c12_child", str(inp2 if seed == "conf" else inp), str(out)], env=env, cwd=str(core.VERIF),
+        p = subprocess.Popen([sys.executable, "-m", "harness.c12_child", str(inp2 if seed == "conf" else inp0 if seed == "0" else inp), str(out)], env=env, cwd=str(core.VERIF),
                              stdout=subprocess.PIPE, stderr=subprocess.PIPE, text=True)
         procs[seed] = (p, out)
     res = {}
@@ -832,7 +846,7 @@ def main(tier: str, seed: int) -> int:
     rng = random.Random(seed)
     sample = [r for r, b in ok if r["steps"] and all("f" in s or s.get("op") in ("@cs", "@path") for s in r["steps"])]
     rng.shuffle(sample)
-    rebuild = sample[: {"quick": 24, "thorough": 150}[tier]]
+    rebuild = sample[: {"quick": 16, "thorough": 150}[tier]]
     t_built = time.time() - t0
     d = core.scratch("c12kids")
     kids = _children([b["pickle"] for r, b in ok], [r["hist"] for r, b in ok], rebuild, d)
